@@ -63,6 +63,8 @@ type Cfg struct {
 	// once all (early) writers returned; 2 = Close from a handler on the read loop;
 	// 3 = the parent context is cancelled and then Close(err) is called (Bootstrap.Shutdown's order).
 	Closer int
+	// Wrap: run on the library's transport wrapper with these {read, write} buffer sizes (nil = mock transport directly).
+	Wrap *[2]int
 	// NoCtxKinds: always hand context.Background() to CtxWrite1/CtxWritev.
 	NoCtxKinds bool
 	// LateWriters start writing at the moment Close is invoked (ids Writers..).
@@ -70,7 +72,11 @@ type Cfg struct {
 }
 
 func (c Cfg) String() string {
-	return fmt.Sprintf("mode=%s Q=%d W=%d per=%d plan=%s procs=%d", c.Mode, c.Queue, c.Writers, c.PerWriter, c.PlanKind, c.Procs)
+	wrap := "mock-transport"
+	if c.Wrap != nil {
+		wrap = fmt.Sprintf("NewTransport(conn,%d,%d)", c.Wrap[0], c.Wrap[1])
+	}
+	return fmt.Sprintf("mode=%s Q=%d W=%d per=%d plan=%s procs=%d transport=%s", c.Mode, c.Queue, c.Writers, c.PerWriter, c.PlanKind, c.Procs, wrap)
 }
 
 // History is everything recorded in one trial.
@@ -184,7 +190,7 @@ func Scribble(b []byte) {
 // executor has returned) and snapshots the logs.
 func Run(cfg Cfg, rng *rand.Rand, watchdog time.Duration) *History {
 	h := &History{Cfg: cfg, Writes: make([][]WriteRec, cfg.Writers+cfg.LateWriters)}
-	opts := mon.RigOpts{Mode: cfg.Mode, Queue: cfg.Queue, Plan: cfg.Plan, QuietTail: true}
+	opts := mon.RigOpts{Mode: cfg.Mode, Queue: cfg.Queue, Plan: cfg.Plan, QuietTail: true, Wrap: cfg.Wrap}
 	if cfg.Closer == 2 {
 		opts.NoPark = true
 		opts.Handlers = []netty.Handler{&closeOnRead{h}}
@@ -430,7 +436,7 @@ func CheckC01(h *History) (recs []WireRec, viols []Viol) {
 			}
 		}
 		// whole within one transport call ("at every moment")
-		if r.Op != nil && r.Off+r.Size > r.Op.Start+len(r.Op.Data) {
+		if h.Cfg.Wrap == nil && r.Op != nil && r.Off+r.Size > r.Op.Start+len(r.Op.Data) {
 			viols = append(viols, Viol{"payload-split-across-transport-calls", fmt.Sprintf("record w=%d seq=%d at offset %d spans two transport calls", r.W, r.Seq, r.Off)})
 		}
 		// (2) at most once
@@ -512,7 +518,8 @@ func CheckC02(h *History, recs []WireRec) (viols []Viol, accepted, onWire int) {
 			}
 		}
 	}
-	if h.Unflush != 0 && len(viols) == 0 {
+	// underneath a wrapper nothing is ever 'flushed' (the wrapper's flush is a Write): being on the connection's log is the criterion
+	if h.Cfg.Wrap == nil && h.Unflush != 0 && len(viols) == 0 {
 		viols = append(viols, Viol{"written-but-not-flushed", fmt.Sprintf("at quiescence %d bytes were written to the transport but never flushed; ops=%s", h.Unflush, tailOps(h.Ops))})
 	}
 	return
@@ -610,7 +617,7 @@ func CheckC06(h *History, recs []WireRec) (viols []Viol, pre int, judged bool) {
 	if h.Ops[ci].InWrite != 0 {
 		viols = append(viols, Viol{"transport-closed-during-writev", fmt.Sprintf("the transport was closed while %d Writev call(s) were in progress; ops=%s", h.Ops[ci].InWrite, tailOps(h.Ops))})
 	}
-	if lastOp >= 0 && len(viols) == 0 {
+	if lastOp >= 0 && len(viols) == 0 && h.Cfg.Wrap == nil {
 		flushed := false
 		for j := lastOp + 1; j < ci; j++ {
 			if h.Ops[j].Kind == mon.OpFlush && !h.Ops[j].Rejected {
